@@ -324,6 +324,45 @@ def run(ctx):
                 g = list(zip(np.asarray(g[0]).tolist(), np.asarray(g[1]).tolist()))
                 e = [(max(0, p_ - fl), min(sizes[c], p_ + fl + 1)) for c, p_ in locs]
                 ctx.check("get_windows", g == e, "get_windows/flank:streamed-locations", "get_windows(flank=%d) of streamed locations gave %r expected %r" % (fl, g[:6], e[:6]), dict(wit, locations=locs, flank=fl, got=g, expected=e), (key, tuple(locs), fl, "sfl"))
+            # two results derived from ONE streamed interval object and evaluated together: mask and pileup, each with its own chromosome sizes
+            inside_rows = sorted([x for x in ivs], key=lambda t: names.index(t[0]))
+            cut3 = r.randint(0, len(inside_rows))
+            st3 = lambda: NpDataclassStream(iter([mk(p_) for p_ in (inside_rows[:cut3], inside_rows[cut3:]) if p_]), dataclass=Interval)
+            one = genome.get_intervals(st3())
+            both_ = bnp.compute((one.get_mask().get_data(), one.get_pileup().get_data()))
+            def expand(dd, as_bool):
+                out = {n: np.zeros(sizes[n], dtype=bool if as_bool else int) for n in names}
+                from bnpmon.util import chrom_names as _cn2
+                vals_ = [True] * len(dd) if not hasattr(dd, "value") else np.asarray(dd.value).tolist()
+                for c_, a_, b_, v_ in zip(_cn2(dd.chromosome), np.asarray(dd.start).tolist(), np.asarray(dd.stop).tolist(), vals_):
+                    if c_ in out and 0 <= a_ <= b_ <= sizes[c_]:
+                        out[c_][a_:b_] = v_
+                    else:
+                        out.setdefault("outside", []).append((c_, a_, b_))
+                return out
+            gm, gp = expand(both_[0], True), expand(both_[1], False)
+            okm = "outside" not in gm and all(np.array_equal(gm[n], cov(n) > 0) for n in names)
+            okp = "outside" not in gp and all(np.array_equal(gp[n], cov(n)) for n in names)
+            ctx.check("get_mask", okm and okp, "get_mask+get_pileup/per-chromosome:one-streamed-object-evaluated-together", "mask and pileup of one streamed interval set, computed together: mask ok %s, pileup ok %s" % (okm, okp),
+                      dict(wit, rows=inside_rows, mask={k_: (v_.tolist() if hasattr(v_, "tolist") else v_) for k_, v_ in gm.items()}, pileup={k_: (v_.tolist() if hasattr(v_, "tolist") else v_) for k_, v_ in gp.items()}), nt and (nt, "mp", cut3))
+            # a streamed pileup indexed by in-memory intervals (some end exactly at a chromosome end)
+            under = bnp.compute(genome.get_intervals(st3()).get_pileup()[genome.get_intervals(tbl(ivs_sorted))])
+            got_u = [np.asarray(x.to_array() if hasattr(x, "to_array") else x).tolist() for x in under]
+            exp_u = [cov(c)[a:b].tolist() for c, a, b in ivs_sorted]
+            ctx.check("array[intervals]", got_u == exp_u, "GenomicArray[intervals]/streamed-array", "values of a streamed pileup under intervals gave %r expected %r" % (got_u[:4], exp_u[:4]), dict(wit, got=got_u[:8], expected=exp_u[:8]), nt and (nt, "su"))
+            # a track built from a STREAM of bedGraph tables in which some chromosome has no records
+            if len(names) >= 2:
+                skip = r.choice(names)
+                dvals = {n: np.array([r.randint(0, 3) for _ in range(sizes[n])], dtype=int) for n in names}
+                dvals[skip][:] = 0
+                brow = [(n, i, i + 1, int(dvals[n][i])) for n in names if n != skip for i in range(sizes[n])]
+                cut4 = r.randint(0, len(brow))
+                mkb = lambda rws: BedGraph([x[0] for x in rws], np.array([x[1] for x in rws], dtype=int), np.array([x[2] for x in rws], dtype=int), np.array([x[3] for x in rws], dtype=int))
+                trk = genome.get_track(NpDataclassStream(iter([mkb(p_) for p_ in (brow[:cut4], brow[cut4:]) if p_]), dataclass=BedGraph))
+                gd = expand(bnp.compute(trk.get_data()), False)
+                okt = "outside" not in gd and all(np.array_equal(gd[n], dvals[n]) for n in names)
+                ctx.check("array[chromosome-name]", okt, "streamed-track/per-chromosome:a-chromosome-without-records", "a track streamed from a bedGraph without records on %s expands to %r" % (skip, {k_: (v_.tolist() if hasattr(v_, "tolist") else v_) for k_, v_ in gd.items()}),
+                          dict(wit, skipped=skip, expected={n: dvals[n].tolist() for n in names}), nt and (nt, "strk", skip, cut4))
             ctx.count("streamed_interval_operations")
         guard("streamed-intervals", streamed_ops)
         # a table grouped by chromosome, but the chromosomes in another order than the genome's: merging gives each chromosome its own merged entries, or refuses
